@@ -225,6 +225,32 @@ pub fn ppoprf_bytes(s: &[u8], st: &mut Stats) -> Result<(), String> {
   let pk = guard("ServerPublicKey::load_from_bincode", || hex::encode(s), || ServerPublicKey::load_from_bincode(s).ok())?;
   let pr = guard("ProofDLEQ::load_from_bincode", || hex::encode(s), || ProofDLEQ::load_from_bincode(s).ok())?;
   st.evals(2);
+  // the public key type is also a plain serde type: the same bytes through bincode directly
+  // (no size limit / no extra validation), and whatever decodes is used
+  let pk_direct = guard("bincode::deserialize::<ServerPublicKey>", || hex::encode(s), || {
+    if s.len() > 20000 {
+      None
+    } else {
+      bincode::deserialize::<ServerPublicKey>(s).ok()
+    }
+  })?;
+  for pkx in pk_direct.iter() {
+    let input = point_from(&valid_point(1).compress().to_bytes());
+    for md in [0u8, 1, 7, 255] {
+      let ev = Evaluation {
+        output: point_from(&valid_point(2).compress().to_bytes()),
+        proof: Some(proof_from_scalars(&curve25519_dalek::scalar::Scalar::ONE, &curve25519_dalek::scalar::Scalar::ONE)),
+      };
+      guard("Client::verify (key decoded with serde directly)", || format!("pk {} md {md}", hex::encode(s)), || Client::verify(pkx, &input, &ev, md))?;
+      st.evals(1);
+    }
+    if let Ok(j) = serde_json::to_string(pkx) {
+      if let Ok(pkj) = serde_json::from_str::<ServerPublicKey>(&j) {
+        guard("Client::verify (key through JSON)", || j.clone(), || Client::verify(&pkj, &input, &Evaluation { output: input.clone(), proof: None }, 0))?;
+      }
+    }
+    st.class("pk-decoded-with-serde-directly");
+  }
   if let Some(pk) = pk {
     st.class("pk-decoded");
     // a decoded key must be usable without crashing, for every tag it may or may not hold
@@ -374,6 +400,27 @@ fn ppbytes_oracle(c: &PpBytesCase, st: &mut Stats) -> Result<(), String> {
     st.class("mutated-pk-decoded");
   } else {
     st.class("mutated-pk-rejected");
+  }
+  // an exported key state whose embedded public key was damaged on the way: importing it and
+  // asking for a (verifiable) evaluation must fail cleanly
+  if let Ok(state_bytes) = bincode::serialize(&server.get_private_key()) {
+    // layout: 32-byte scalar, then the public key in the form handled above
+    if state_bytes.len() >= 32 + honest.len() && state_bytes[32..32 + honest.len()] == honest[..] && b.len() == honest.len() {
+      let mut poisoned = state_bytes.clone();
+      poisoned[32..32 + honest.len()].copy_from_slice(&b);
+      if let Ok(state) = bincode::deserialize::<ppoprf::ppoprf::ServerKeyState>(&poisoned) {
+        let mut s2 = Server::new(c.mds.clone()).map_err(|e| e.to_string())?;
+        s2.set_private_key(state);
+        let (blinded, _) = Client::blind(b"after-import");
+        for md in c.mds.iter().take(3) {
+          for verifiable in [true, false] {
+            guard("Server::eval after importing a key state with a damaged public key", || format!("pk {} md {md}", hex::encode(&b)), || s2.eval(&blinded, *md, verifiable).is_ok())?;
+            st.evals(1);
+          }
+        }
+        st.class("key-state-with-mutated-pk-imported");
+      }
+    }
   }
   if st.want_sample() {
     st.sample(json!({"pk_bytes": hx(&b), "mutations": format!("{:?}", c.muts)}));
